@@ -3,13 +3,14 @@ package main
 // Scenarios around the END of a logical channel, shared by C12 and C13 (the fn number differs, the scenario is the same).
 //
 // concurrent closers (C12 fn 5, C13 fn 10)
-//   input  (nclosers viaconn mode connfirst nother queued numbers-observed)
-//   output (window-reached (code ...) teardowns numbers-ok unregistered after-code others-ok connclose-returned reader-ended)
+//   input  (nclosers viaconn mode connfirst nother queued)
+//   output (held-at-release (code ...) teardowns numbers-ok unregistered after-code others-ok connclose-returned reader-ended)
 //   nclosers goroutines call Channel.Close on the SAME logical channel, optionally one more calls Conn.Close.  The
 //   peer is slow to accept the teardown packet of that channel: the transport holds every Write of a CLOSE-type packet
-//   carrying the channel's id until all closers are parked in it (they have all passed the first `closed` check and
-//   none has taken the exclusive lock yet), then releases them together.  mode 0: the closers are released into their
-//   calls together; mode 1: each one is started once the previous one is parked in the held write.
+//   carrying the channel's id until every closer is either parked in such a write or has returned (so whoever gets as
+//   far as the teardown is inside the window between the first `closed` check and the exclusive lock while all the
+//   others run), then lets the packets go.  mode 0: the closers are released into their calls together; mode 1: each
+//   one is started once the previous one is parked or has returned.
 //   code: 0 nil | 1 an error list of its own (e.g. "package still queued") | 2 ErrChannelClosed (for Conn.Close: its
 //   error wraps ErrChannelClosed) | -1 panic | 9 did not return within the bound.  Codes are sorted (who wins depends on
 //   the schedule), Conn.Close's code is among them.
@@ -63,9 +64,7 @@ func runConcClose(out caser, fn int, c ccCfg) {
 	e := newC13(8, 0)
 	defer e.shutdown()
 	total := c.closers + int(b2i(c.viaConn))
-	// the last element is filled in below: mode 0 - the schedule-dependent observation "the teardown packets carry
-	// consecutive numbers" (they are written without any lock), mode 1 - not applicable (-1: the output field is judged)
-	in := sx.L{sx.I(int64(c.closers)), sx.I(b2i(c.viaConn)), sx.I(int64(c.mode)), sx.I(b2i(c.connFirst)), sx.I(int64(c.nother)), sx.I(int64(c.queued)), sx.I(-1)}
+	in := sx.L{sx.I(int64(c.closers)), sx.I(b2i(c.viaConn)), sx.I(int64(c.mode)), sx.I(b2i(c.connFirst)), sx.I(int64(c.nother)), sx.I(int64(c.queued))}
 	tag := fmt.Sprintf("concurrent-close;closers=%d;viaconn=%d;mode=%d;others=%d;queued=%d;procs=%d;race=%d",
 		c.closers, b2i(c.viaConn), c.mode, c.nother, c.queued, c.procs, b2i(raceEnabled))
 	ch := e.channel(1)
@@ -133,6 +132,29 @@ func runConcClose(out caser, fn int, c ccCfg) {
 	if c.viaConn && !c.connFirst {
 		order = append(order, true)
 	}
+	codes := make([]int, 0, total)
+	drain := func() {
+		for {
+			select {
+			case x := <-results:
+				codes = append(codes, int(x))
+			default:
+				return
+			}
+		}
+	}
+	// settled: each of the first `want` closers is parked in the held teardown write or has returned
+	settled := func(want int, d time.Duration) bool {
+		deadline := time.Now().Add(d)
+		for time.Now().Before(deadline) {
+			drain()
+			if e.pc.Held()+len(codes) >= want {
+				return true
+			}
+			time.Sleep(200 * time.Microsecond)
+		}
+		return false
+	}
 	if c.mode == 0 {
 		for _, conn := range order {
 			closer(conn)
@@ -142,15 +164,12 @@ func runConcClose(out caser, fn int, c ccCfg) {
 		close(start)
 		for k, conn := range order {
 			closer(conn)
-			if !e.pc.WaitHeld(k+1, hangBound/2) {
-				break
-			}
+			settled(k+1, hangBound/2)
 		}
 	}
-	// the window: every closer has passed the first check and is parked in its teardown write
-	reached := e.pc.WaitHeld(total, hangBound/2)
+	settled(total, hangBound/2)
+	heldAtRelease := e.pc.Held()
 	e.pc.Release()
-	codes := make([]int, 0, total)
 	deadline := time.After(hangBound)
 	for len(codes) < total {
 		select {
@@ -215,13 +234,7 @@ func runConcClose(out caser, fn int, c ccCfg) {
 		readerEnded = true
 	case <-time.After(hangBound):
 	}
-	if c.mode == 0 {
-		in[6] = sx.I(b2i(numbersOk))
-		if !numbersOk {
-			tag += ";duplicate-teardown-numbers"
-		}
-	}
-	out.Case(fn, in, sx.L{sx.I(b2i(reached)), cl, sx.I(int64(teardowns)), sx.I(b2i(numbersOk)), sx.I(b2i(unreg)), sx.I(after),
+	out.Case(fn, in, sx.L{sx.I(int64(heldAtRelease)), cl, sx.I(int64(teardowns)), sx.I(b2i(numbersOk)), sx.I(b2i(unreg)), sx.I(after),
 		sx.I(b2i(othersOk)), sx.I(b2i(connRet)), sx.I(b2i(readerEnded))}, tag)
 }
 
@@ -236,13 +249,6 @@ func genConcClose(out caser, fn int, reps int) {
 				continue
 			}
 			for _, mode := range ccModes {
-				if raceEnabled && mode == 0 {
-					// closers released TOGETHER write CurrentHeaderType / curPacketNr of the channel without any lock (the
-					// teardown is sent before the exclusive lock is taken): the race detector reports that on the unchanged
-					// tree (reported to the coordinator; see props/c12.py ASSUMPTIONS).  Under the detector only the schedule
-					// ordered through the transport (mode 1) runs.
-					continue
-				}
 				for _, n := range []int{2, 3} {
 					runConcClose(out, fn, ccCfg{closers: n, mode: mode, nother: (n + rep) % 3, queued: 0, procs: procs})
 				}
